@@ -227,3 +227,19 @@ func (s ctxStore) Append(ctx context.Context, e *Event) (Offset, error) {
 	}
 	return s.MemoryStore.Append(ctx, e)
 }
+
+// evOwnBuf encodes itself into a buffer it owns and reuses (like json.RawMessage, whose
+// MarshalJSON hands out its own bytes).
+type evOwnBuf struct {
+	N   int
+	buf *[]byte
+}
+
+func (e evOwnBuf) MarshalJSON() ([]byte, error) {
+	b, err := json.Marshal(evA{N: e.N})
+	if err != nil {
+		return nil, err
+	}
+	*e.buf = append((*e.buf)[:0], b...)
+	return *e.buf, nil
+}
